@@ -109,6 +109,7 @@ class SimHTTP(object):
         self.gen = 0
         self.fail_code = None
         self.plan = None
+        self.fail_layers = None  # None = every upstream request fails while fail_code is set, else a set of layer names
         self.ocean = False       # False | True | (r, g, b): colour of the constant-colour 'ocean' tiles
 
     def open(self, client, url, data=None, method=None):
@@ -119,7 +120,7 @@ class SimHTTP(object):
         gen = self.gen
         sched = self.world.sched
         me = sched._me() if sched is not None else None
-        entry = {'gen': gen, 'url': url, 'ok': None, 't': self.world.clock.now, 't0': self.world.clock.now,
+        entry = {'gen': gen, 'url': url, 'layers': q.get('layers'), 'ok': None, 't': self.world.clock.now, 't0': self.world.clock.now,
                  'task': me.name if me else None, 'proc': me.proc.name if me else None,
                  'seq0': len(sched.log) if sched is not None else 0}
         try:
@@ -138,7 +139,7 @@ class SimHTTP(object):
             time.sleep(plan['latency'])
         entry['t1'] = self.world.clock.now
         entry['seq1'] = len(sched.log) if sched is not None else 0
-        if self.fail_code or plan.get('fail'):
+        if (self.fail_code and (self.fail_layers is None or q.get('layers') in self.fail_layers)) or plan.get('fail'):
             entry['ok'] = False
             code = self.fail_code or 500
             raise HTTPClientError('HTTP Error "%s": %d' % (url, code), response_code=code)
